@@ -1000,9 +1000,10 @@ def collect(info, mods: dict, repo: pathlib.Path):
             all_src[p] = p.read_text()
         except OSError:
             pass
-    chains = cfg_attribute_chains(repo, list(all_src))
+    relevant = [p for p, src in all_src.items() if "cfg." in src or "str_to_class(" in src]
+    chains = cfg_attribute_chains(repo, [p for p in relevant if "cfg." in all_src[p]])
     fn_index: dict[str, list] = {}
-    for p in all_src:
+    for p in relevant:
         try:
             tree = _module_ast(str(p))
         except SyntaxError:
@@ -1019,6 +1020,9 @@ def collect(info, mods: dict, repo: pathlib.Path):
         return best
 
     import re as _re
+    from collections import Counter as _Counter
+
+    ident_counts = _Counter(_re.findall(r"[A-Za-z_][A-Za-z_0-9]*", joined))
 
     for rel, line, path, store in chains:
         if path[0] not in CONFIG_ROOTS:
@@ -1029,7 +1033,7 @@ def collect(info, mods: dict, repo: pathlib.Path):
         # a function nobody refers to (other than its own `def`) is never run: its chains are reported separately
         called = True
         if enc and not fname.startswith("__"):
-            called = len(_re.findall(r"\b" + _re.escape(fname) + r"\b", joined)) > 1
+            called = ident_counts.get(fname, 0) > 1
         # the callee of a call is a method name, not a key
         is_method = False
         if enc:
@@ -1093,18 +1097,48 @@ def collect(info, mods: dict, repo: pathlib.Path):
     bs = inspect.signature(mt.build_mri_transforms)
     info.builder_defaults = {p.name: simple_default(p) for p in bs.parameters.values() if p.kind != p.VAR_KEYWORD}
     info.builder_required = [n for n, d in info.builder_defaults.items() if d == "NODEFAULT"]
-    # ---- report only: config fields swallowed by **kwargs that the constructor never reads --------------------------------------
+    # ---- report only: config fields swallowed by **kwargs that neither the constructor nor the function it forwards to reads ----
+    def callee_reads(module_name: str, attr: str) -> set[str]:
+        """keys read from **kwargs by the functions the constructor forwards its **kwargs to (one call away)"""
+        reads: set[str] = set()
+        m = mods.get(module_name)
+        cls = getattr(m, attr, None)
+        node, glob, _path = _class_node(cls) if inspect.isclass(cls) else (None, None, None)
+        if node is None:
+            return reads
+        init = next((st for st in node.body if isinstance(st, ast.FunctionDef) and st.name == "__init__"), None)
+        if init is None or init.args.kwarg is None:
+            return reads
+        for n in ast.walk(init):
+            if isinstance(n, ast.Call) and isinstance(n.func, ast.Name) and any(k.arg is None for k in n.keywords):
+                callee = glob.get(n.func.id)
+                if inspect.isfunction(callee) and (getattr(sys.modules.get(callee.__module__), "__file__", "") or "").startswith(str(repo)):
+                    for fn in ast.walk(_module_ast(sys.modules[callee.__module__].__file__)):
+                        if isinstance(fn, ast.FunctionDef) and fn.name == callee.__name__ and fn.args.kwarg is not None:
+                            kw = fn.args.kwarg.arg
+                            for c in ast.walk(fn):
+                                if isinstance(c, ast.Call) and isinstance(c.func, ast.Attribute) and c.func.attr in ("get", "pop") \
+                                        and _name(c.func.value) == kw and c.args and isinstance(c.args[0], ast.Constant):
+                                    reads.add(str(c.args[0].value))
+        return reads
+
+    import dataclasses as _dc
+
     for gc in info.guard_classes:
-        if gc["route"] != 0 or not gc["varkw"] or gc["forwarded"]:
+        if gc["route"] != 0 or not gc["varkw"]:
             continue
         cfg_cls = info.schema_classes.get((gc["module"].rsplit(".", 1)[0] + ".config", gc["attr"] + "Config"))
         if cfg_cls is None:
             continue
-        import dataclasses as _dc
-
         allowed = set((gc["kw_policy"] or {}).get("names", []))
+        reads = set(gc["kwargs_reads"])
+        fwd = callee_reads(gc["module"], gc["attr"]) if gc["forwarded"] else set()
+        if gc["forwarded"] and not fwd:
+            continue            # forwarded somewhere we cannot read: no claim
         for f in _dc.fields(cfg_cls):
-            if f.name in ("model_name", "engine_name") or f.name in gc["params"] or f.name in gc["kwargs_reads"] or f.name in allowed:
+            if f.name in ("model_name", "engine_name") or f.name in gc["params"] or f.name in reads or f.name in allowed:
+                continue
+            if any(f.name == r or f.name.endswith("_" + r) for r in fwd):
                 continue
             info.dead_model_keys.append(f"{cfg_cls.__name__}.{f.name}")
     # ---- strings that become symbols --------------------------------------------------------------------------------------------
